@@ -229,23 +229,31 @@ func dispatchConnection(conn net.Conn, sta *State) {
 	}
 
 	var user *ActiveUser
-	if sta.IsBypass(ci.UID) {
-		user, err = sta.Panel.GetBypassUser(ci.UID)
-	} else {
-		user, err = sta.Panel.GetUser(ci.UID)
-	}
-	if err != nil {
-		log.WithFields(log.Fields{
-			"UID":        b64(ci.UID),
-			"remoteAddr": conn.RemoteAddr(),
-			"error":      err,
-		}).Warn("+1 unauthorised UID")
-		goWeb()
-		return
-	}
+	var sesh *mux.Session
+	var existing bool
+	for {
+		if sta.IsBypass(ci.UID) {
+			user, err = sta.Panel.GetBypassUser(ci.UID)
+		} else {
+			user, err = sta.Panel.GetUser(ci.UID)
+		}
+		if err != nil {
+			log.WithFields(log.Fields{
+				"UID":        b64(ci.UID),
+				"remoteAddr": conn.RemoteAddr(),
+				"error":      err,
+			}).Warn("+1 unauthorised UID")
+			goWeb()
+			return
+		}
 
-	common.VerifPoint("dispatch.userResolved")
-	sesh, existing, err := user.GetSession(ci.SessionId, seshConfig)
+		common.VerifPoint("dispatch.userResolved")
+		sesh, existing, err = user.GetSession(ci.SessionId, seshConfig)
+		if err != ErrUserTerminated {
+			break
+		}
+		// the record was terminated (its last session closed) after we looked it up: resolve the user again
+	}
 	if err != nil {
 		user.CloseSession(ci.SessionId, "")
 		log.Error(err)
